@@ -3,9 +3,15 @@ Model of /repo/src/fpgroups/stabilizer.rs and of `induced_table`, `core_table`,
 `intersection_table` in /repo/src/fpgroups/cosets.rs (import-free, executable).
 
 Conventions (DESIGN §3.2): every Rust statement is re-stated; `&mut` becomes a returned
-value; `unwrap()` on `None`, indexing a map with a missing key (`rels_by_gen[&gen]`,
-`point_to_word[&px]`, `n2o[&i]`), `w[0]` of an empty word, an index out of range and a
-failed `assert_eq!` become `Outcome.panic`; `Outcome.err` is "model fuel exhausted".
+value; `unwrap()` on `None`, indexing a map with a missing key (`point_to_word[&px]`,
+`n2o[&i]`), an index out of range and a failed `assert_eq!` become `Outcome.panic`;
+`Outcome.err` is "model fuel exhausted".
+
+Repaired behaviour is modelled for two defects (the pinned tree differed):
+* D13 `close_relations_in_place` indexed `rels_by_gen[&gen]` (panic on a missing key);
+      repaired: a letter that starts no relator rotation has no relators to scan.
+* D14 `relators_by_start_gen` read `w[0]` of the empty relator (panic); repaired: the
+      empty word is skipped.
 
 Hash containers.  `edge_to_word`, `point_to_word`, `seen` (stabilizer.rs) and `o2n`,
 `n2o` (`induced_table`) are `HashMap`/`HashSet`s that are **only probed** (`get`,
@@ -43,13 +49,14 @@ def rbgPush (g : Int) (w : List Int) : RelMap → RelMap
   | [] => [(g, [w])]
   | (k, ws) :: r => if k = g then (k, ws ++ [w]) :: r else (k, ws) :: rbgPush g w r
 
-/-- `for w in relator_permutations(&rel) { result.entry(w[0])… }`; `w[0]` of the empty
-    word (the only permutation of the empty relator) is an index panic -/
+/-- `for w in relator_permutations(&rel) { if w.len() > 0 { result.entry(w[0])… } }`
+    (D14 repaired: the pinned tree read `w[0]` of the empty word — the only permutation of
+    the empty relator — and panicked) -/
 def rbgWords : List (List Int) → RelMap → Outcome RelMap
   | [], m => .ok m
   | w :: ws, m =>
     match w with
-    | [] => .panic
+    | [] => rbgWords ws m
     | x :: _ => rbgWords ws (rbgPush x w m)
 
 def rbgRels : List (List Int) → RelMap → Outcome RelMap
@@ -144,8 +151,11 @@ def scanRels (ct : Table) (e2w : EMap) (point : Nat) : List (List Int) → Queue
     | .err => .err
     | .panic => .panic
 
-/-- `while let Some((point, gen, w)) = queue.pop_front() { … }`; `rels_by_gen[&gen]`
-    panics when no rotation of a relator or of an inverse relator starts with `gen` -/
+/-- `while let Some((point, gen, w)) = queue.pop_front() { … }` (D13 repaired:
+    `if let Some(rs) = rels_by_gen.get(&gen) { for r in rs.iter() { … } }`; the pinned tree
+    indexed `rels_by_gen[&gen]` and panicked when no rotation of a relator or of an inverse
+    relator starts with `gen` — every free group, every free factor, relators that are not
+    cyclically reduced) -/
 def closeLoop (ct : Table) (rbg : RelMap) : Nat → Queue → EMap → Outcome EMap
   | _, [], e2w => .ok e2w
   | 0, _ :: _, _ => .err
@@ -154,13 +164,10 @@ def closeLoop (ct : Table) (rbg : RelMap) : Nat → Queue → EMap → Outcome E
     | .ok (some tgt) =>
       let e1 := e2w.insert tgt (-gen) (FW.inverse w)
       let e2 := e1.insert point gen w
-      match rbgLookup gen rbg with
-      | none => .panic
-      | some rs =>
-        match scanRels ct e2 point rs q with
-        | .ok q' => closeLoop ct rbg f q' e2
-        | .err => .err
-        | .panic => .panic
+      match scanRels ct e2 point ((rbgLookup gen rbg).getD []) q with
+      | .ok q' => closeLoop ct rbg f q' e2
+      | .err => .err
+      | .panic => .panic
     | .ok none => .panic
     | .err => .err
     | .panic => .panic
